@@ -7,6 +7,7 @@ import AscaVerif.Model.Config
 import AscaVerif.Model.Interp.Apply
 import AscaVerif.Model.Lexer
 import AscaVerif.Model.Parser
+import AscaVerif.Model.AliasParser
 /-! Line-protocol driver for the model (compiled `lean_exe`; imports the model only — core Lean). -/
 open Asca
 
@@ -466,6 +467,24 @@ def showParse : Parse.PRes (Option Parse.PRule) → String
   | .panic _ => "panic"
   | .outOfFuel _ => "hang"
 
+/-! alias transformations as the flat stream of the `alias_line` hook -/
+def aliasItemToks (it : AParse.AItem) : List String :=
+  match it.kind with
+  | .empty => ["E"]
+  | .syllBound => ["B"]
+  | .replacement t plus => ["R", if plus then "1" else "0", if t.isEmpty then "-" else ".".intercalate (t.map toString)]
+  | .segments segs => "G" :: toString segs.length :: segs.flatMap fun sg =>
+      match sg with
+      | .ipa sg m => ["I", toString sg.root.toNat, toString sg.manner.toNat, toString sg.laryngeal.toNat,
+          (match sg.place with | some p => toString p.toNat | none => "-")] ++ optModsToks m
+      | .matrix m => "X" :: modsToks m
+
+def showAlias : Parse.PRes (List AParse.Transformation) → String
+  | .ok ts => "ok " ++ " ".intercalate (toString ts.length :: ts.flatMap fun t => aliasItemToks t.input ++ aliasItemToks t.output)
+  | .err e => (s!"err {e.name} " ++ " ".intercalate (e.spans.map fun (a, b) => s!"{a} {b}")).trimRight
+  | .panic _ => "panic"
+  | .outOfFuel _ => "hang"
+
 /-- `TokenKind` as its `Debug` text -/
 def tkName : Lex.TK → String
   | .leftSquare => "LeftSquare" | .rightSquare => "RightSquare" | .leftCurly => "LeftCurly" | .rightCurly => "RightCurly"
@@ -541,6 +560,10 @@ def handleOp (st : DState) (line : String) : DState × String :=
   | "lex" :: cps =>
     match (cps.filter (· != "")).mapM String.toNat? with
     | some t => (st, showLex (Lex.lexLine t))
+    | none => (st, "bad-op")
+  | "aliasp" :: k :: cps =>
+    match (cps.filter (· != "")).mapM String.toNat? with
+    | some t => (st, showAlias (AParse.parseLine (k == "1") t))
     | none => (st, "bad-op")
   | "parse" :: cps =>
     match (cps.filter (· != "")).mapM String.toNat? with
